@@ -20,6 +20,7 @@ CONSTANTS
   FaultPairs,  \* connections {i,j} that may break / be (re)established
   MembCids,    \* callback ids available for membership requests (each used once)
   MembTargets, \* nodes that may be added / removed
+  CrashNodes,  \* journaled nodes that may be killed between two steps and restarted (each kill uses the fault budget)
   Spares,      \* nodes that are not running initially and may be started (with the member list of a running voter)
   MaxDepth
 
@@ -53,6 +54,8 @@ OtherEnv ==
   \/ \E ni, nj \in Nodes : Notice(ni, nj) /\ UNCHANGED <<unused, faults>>
   \/ \E ci, cj \in Nodes : {ci, cj} \in FaultPairs /\ Connect(ci, cj) /\ UNCHANGED <<unused, faults>>
   \/ \E fn \in Compactors : ~node[fn].force /\ Compact(fn) /\ UNCHANGED <<unused, faults>>
+  \/ \E kn \in CrashNodes : faults < MaxFaults /\ Crash(kn) /\ faults' = faults + 1 /\ UNCHANGED unused
+  \/ \E rn \in CrashNodes : Restart(rn) /\ UNCHANGED <<unused, faults>>
 
 Env == TickEnv \/ (OtherEnv /\ lastTick' = Nil)
 MCNext == Env /\ GNext
